@@ -20,7 +20,7 @@ structure Sim where
   fr : FramerSt
 deriving Inhabited
 
-def Sim.init : Sim := { started := false, dead := false, s := ClientConn.init 400 none none, fr := FramerSt.init 256 }
+def Sim.init : Sim := { started := false, dead := false, s := ClientConn.init readerReturnsOnGoAwayErr 400 none none, fr := FramerSt.init 256 }
 
 /-- which case of a blocked NewStream's select is ready (ctx first: the generator never makes two
 different outcomes ready at once) -/
@@ -142,7 +142,7 @@ def Sim.op (m : Sim) (fs : List String) : Sim × String :=
     ({ m with started := true, dead := true }, "err rpcs=- wire=S.6=256 conn=-")
   | ["start", mcs, mhl] =>
     if m.started then (m, "bad-op") else
-    let s := ClientConn.init 400 (optNat mcs) (optNat mhl)
+    let s := ClientConn.init readerReturnsOnGoAwayErr 400 (optNat mcs) (optNat mhl)
     ({ m with started := true, s := s }, "ok " ++ render s [] |>.replace "wire=-" "wire=S.6=256,Sa")
   | _ =>
     if !m.started then (m, if fs.head? = some "start" then "bad-op" else "nostart")
